@@ -218,3 +218,44 @@ func itoaV(c int) string {
 // VerifNewSticky returns a fresh instance of the sticky strategy (BalanceStrategySticky is a shared singleton whose
 // movement bookkeeping would be shared with a Plan call the harness has given up waiting for).
 func VerifNewSticky() BalanceStrategy { return &stickyBalanceStrategy{} }
+
+// ---- the call site: consumerGroup.balance
+
+type verifBalClient struct {
+	Client
+	parts map[string][]int32
+}
+
+func (c *verifBalClient) Partitions(topic string) ([]int32, error) {
+	p, ok := c.parts[topic]
+	if !ok {
+		return nil, ErrUnknownTopicOrPartition
+	}
+	return p, nil
+}
+
+type verifRecorder struct {
+	topics map[string][]int32
+}
+
+func (r *verifRecorder) Name() string { return "verif-recorder" }
+func (r *verifRecorder) Plan(members map[string]ConsumerGroupMemberMetadata, topics map[string][]int32) (BalanceStrategyPlan, error) {
+	r.topics = topics
+	return BalanceStrategyPlan{}, nil
+}
+func (r *verifRecorder) AssignmentData(memberID string, topics map[string][]int32, generationID int32) ([]byte, error) {
+	return nil, nil
+}
+
+// VerifGroupBalanceTopics runs the real consumerGroup.balance with a recording strategy and a scripted client and
+// returns the `topics` argument the strategy's Plan received.
+func VerifGroupBalanceTopics(members map[string]ConsumerGroupMemberMetadata, parts map[string][]int32) (map[string][]int32, error) {
+	rec := &verifRecorder{}
+	cfg := NewConfig()
+	cfg.Consumer.Group.Rebalance.Strategy = rec
+	c := &consumerGroup{client: &verifBalClient{parts: parts}, config: cfg}
+	if _, err := c.balance(members); err != nil {
+		return nil, err
+	}
+	return rec.topics, nil
+}
